@@ -333,7 +333,10 @@ def wildneg_stream(ck):
             f8 += 1
             ck.known("F8 a generated program produced two facts with equal Atom.Hash(): %s / %s" % f8_in_groups(groups)[0])
             continue
-        if len(groups) > 1 and len(ck.violations) < 5:
+        # a run that did not finish (wall-clock guard or fact limit) is inconclusive, not an answer:
+        # only configurations that FINISHED with different results disagree
+        conclusive = [g for g in groups if g["err"] not in ("timeout", "limit")]
+        if len(conclusive) > 1 and len(ck.violations) < 5:
             ck.violation({"property": "C01", "stream": "wildneg",
                           "kind": "fact-store kinds / rule orders disagree on one program (wildcards in negated atoms)",
                           "program": progs[i], "src": go_cases[i]["src"], "pre": go_cases[i]["pre"],
@@ -571,7 +574,8 @@ def run(ck):
             f8_stores += 1
             ck.known("F8 a generated program produced two facts with equal Atom.Hash(): %s / %s" % f8_in_groups(groups)[0])
             continue
-        if len(groups) > 1 and len(ck.violations) < 5:
+        # unfinished runs (wall-clock guard, fact limit) are inconclusive; only finished runs can disagree
+        if len([g for g in groups if g["err"] not in ("timeout", "limit")]) > 1 and len(ck.violations) < 5:
             ck.violation({"property": "C01", "kind": "fact-store kinds / rule orders disagree on one program",
                           "program": progs[i], "src": go_cases[i]["src"], "pre": go_cases[i]["pre"],
                           "groups": [{"configs": g["configs"], "err": g["err"], "msg": g.get("msg"),
